@@ -858,8 +858,10 @@ class SigmaRegularExpression(SigmaType):
         """
         Replace all occurrences of string part matching regular expression with placeholder.
         """
+        # Pass the SigmaString itself: building it again from its string form would turn
+        # placeholders that are still unresolved into plain text.
         return [
-            SigmaRegularExpression(str(sigmastr), self.flags)
+            SigmaRegularExpression(sigmastr, set(self.flags))
             for sigmastr in self.regexp.replace_placeholders(callback)
         ]
 
